@@ -93,6 +93,9 @@ class Simulation(Structure):
 
     """
     def __new__(cls, *args, **kw):
+        # Allow the documented keyword spelling Simulation(filename="archive.bin", snapshot=34)
+        if len(args)==0 and kw.get("filename") is not None:
+            args = (kw["filename"],)
         # Create a new simulation if no arguments given
         if len(args)==0:
             sim = super(Simulation,cls).__new__(cls)
@@ -166,7 +169,7 @@ class Simulation(Structure):
     
     @classmethod
     def from_simulationarchive(cls, simulationarchive, snapshot=-1):
-        return cls(filename=filename,snapshot=snapshot)
+        return cls(simulationarchive, snapshot)
 
     @classmethod
     def from_file(cls, filename, snapshot=-1):
